@@ -116,13 +116,14 @@ type File struct {
 	Axioms   []Clause
 	Ghosts   map[string]string
 	Regexes  []*RegexDecl
+	Structs  []*StructDecl
 }
 
 var keywords = map[string]bool{
 	"func": true, "trusted": true, "props": true, "mode": true, "requires": true, "ensures": true,
 	"modifies": true, "loop": true, "at-call": true, "at-store": true, "inline": true, "pure": true,
 	"spec": true, "axiom": true, "guarded_by": true, "monitor": true, "census": true, "panics": true,
-	"why:": true, "regexlang": true, "params": true, "ghostfield": true, "ufn": true, "checks": true, "nobody": true, "ghost": true, "maypanic": true, "reach": true,
+	"why:": true, "regexlang": true, "recovers": true, "closure-only": true, "params": true, "ghostfield": true, "ufn": true, "checks": true, "nobody": true, "ghost": true, "maypanic": true, "reach": true,
 }
 
 type rawLine struct {
@@ -398,6 +399,31 @@ func ParseFile(filename, pkg, src string) (*File, error) {
 				return nil, errf("bad regexlang string: %v", err)
 			}
 			f.Regexes = append(f.Regexes, &RegexDecl{Global: m[1], Spec: sp, Props: strings.Fields(m[3]), Pkg: pkg, File: filename, Line: r.line})
+			cur = nil
+		case "recovers", "closure-only":
+			// recovers F ; props Cxx      |      closure-only A in B, C ; props Cxx
+			main, props, _ := strings.Cut(rest, ";")
+			sd := &StructDecl{Kind: kw, Pkg: pkg, File: filename, Line: r.line}
+			pf := strings.Fields(props)
+			if len(pf) > 1 {
+				sd.Props = pf[1:]
+			}
+			main = strings.TrimSpace(main)
+			if kw == "closure-only" {
+				a, b, ok := strings.Cut(main, " in ")
+				if !ok {
+					return nil, errf("closure-only A in B, C")
+				}
+				sd.Args = append(sd.Args, strings.TrimSpace(a))
+				for _, x := range strings.Split(b, ",") {
+					if x = strings.TrimSpace(x); x != "" {
+						sd.Args = append(sd.Args, x)
+					}
+				}
+			} else {
+				sd.Args = []string{main}
+			}
+			f.Structs = append(f.Structs, sd)
 			cur = nil
 		case "axiom":
 			c, err := mkClause("axiom", rest)
